@@ -54,7 +54,10 @@ func compareNoOperand(mn string, mode int, out []byte) (m *sem.Mismatch, noref b
 	return &sem.Mismatch{Kind: "op", Detail: fmt.Sprintf("wrote %s, bytes % x decode as %s in %d-bit mode", mn, out, inst.Op, mode)}, false
 }
 
-func checkC01(c InstCase) Verdict {
+func checkC01(c InstCase) Verdict { return checkInst("C01", c) }
+
+// checkInst: accepted without diagnostic => decodes to exactly the statement written.
+func checkInst(pid string, c InstCase) Verdict {
 	mode := sem.ModeOf(c.Mode)
 	r := asm.Assemble(c.Source())
 	base := asm.Baseline(sem.Header(c.Mode))
@@ -79,7 +82,7 @@ func checkC01(c InstCase) Verdict {
 	}
 	if m != nil {
 		v.Fail = fmt.Sprintf("%q (BITS %d) assembled silently to % x — %s", c.St.Render(), mode, r.Out, m)
-		v.Sig = fmt.Sprintf("C01|cls=%s|mode=%d|kind=%s|st=%s|out=%x", c.Cls, mode, m.Kind, c.St.Render(), r.Out)
+		v.Sig = fmt.Sprintf(pid+"|cls=%s|mode=%d|kind=%s|st=%s|out=%x", c.Cls, mode, m.Kind, c.St.Render(), r.Out)
 		return v
 	}
 	v.NonTrivial = len(r.Out) > 0
